@@ -18,7 +18,7 @@ _COLS = ["id", "name", "created_at", "amount", "status", "user_id", "descr", "co
 _COL_TAILS = ["", "", " not null", " NOT NULL", " null", " default 0", " default 'x'", " primary key",
               " unique", " DEFAULT now()", " not null default 'a b'", " check (val > 0)",
               " references users (id)", " COMMENT 'a comment'", " default current_timestamp",
-              " encode zstd", " generated always as (val * 2)"]
+              " encode zstd", " generated always as (val * 2)", " default \u2018new\u2019", " COMMENT \u2018typographic\u2019"]
 _TABLE_TAILS = ["", "", "", " tablespace ts1", " partitioned by (dt string)", " stored as parquet",
                 " location 's3://bucket/path'", " comment 'table comment'", " cluster by (id)",
                 " ENGINE=InnoDB", " with (fillfactor=70)", " diststyle even sortkey(id)",
